@@ -70,7 +70,7 @@ impl Part for WirePart {
         "histories of 5..22 steps on a two-shard pool (pool_size 2..3): connect, failed login, autocommit statement, BEGIN..COMMIT/ROLLBACK blocks, extended batch, failing statement, transaction left open / closed later, Terminate, abrupt drop (idle or inside a transaction), malformed message, out-of-range shard_id comment, backend refusing new sessions while a new server connection is needed; a sample is taken after every few steps and at the end. Oracle at each quiescent sample (polled up to 2 s): SHOW CLIENTS lists exactly the harness' connected clients once each with idle/active state matching open transactions, SHOW POOLS cl_idle+cl_active+cl_waiting equals their number with no client waiting, SHOW SERVERS has one row per live mock-backend session and as many active ones as open transactions and none in login, SHOW STATS total_query_count / total_xact_count equal the Query/Sync requests the backends executed / those that left the backend idle, and no total decreases between samples; after everyone has left: zero clients, no active server. Non-trivial = at least one abrupt or erroneous exit and one refused checkout or failed login in the history".into()
     }
     fn cases(&self, tier: Tier) -> u64 {
-        tier.pick(250, 8_000)
+        tier.pick(1_000, 16_000)
     }
     fn strategy(&self, _tier: Tier) -> BoxedStrategy<Case> {
         let c = 0u8..6;
